@@ -26,6 +26,18 @@ MISSED_FIRST = {"C02-1": "dict keys were always generated in mesh order", "C02-2
                 "C10-7": "files were only ever replaced through to_file; now another program copies a file over an existing path between two reads",
                 "C10-9": "the legacy-HDF5 peer always wrote sorted corners",
                 "C12-8": "the reference point was never one of the object's own corner arrays",
+                "C02-10": "no two meshes with the same cell counts and edge lengths at another origin that carry a subregion at the same absolute coordinates (now: twin meshes, and the same per-subregion dictionary on both)",
+                "C03-10": "no in-place move of one of two equal meshes between two evaluations; the first report came from state leaking from an earlier run of the same worker and did not replay (now: every run executes in its own forked child)",
+                "C03-11": "refused operands were always fields; no constant vector of the wrong length / operand of a wrong type on the left of a field",
+                "C03-12": "exponents were never negative floats",
+                "C08-10": "the harness always passed an explicit validity array, so the constructor's default (valid=True) was never exercised",
+                "C10-10": "nobody changed the mesh of a field that had been read from a file before reading again",
+                "C10-11": "no write that fails midway followed by an ordinary write to the same name",
+                "C14-11": "no load_subregions from a side-car whose first entries fit the mesh and a later one does not",
+                "C14-12": "integer-typed subregion corners together with a fractional cell were too rare (now: a dedicated integer grid with cells of 1/2 and 1/4)",
+                "C15-11": "no refused norm specification followed by further use of the field",
+                "C16-12": "stored fields never carried a permuted or partial component-to-axis mapping",
+                "C18-11": "refused rotation requests did not include a float-typed n (refused late, by the mesh constructor)",
                 "C16-9": "upper corners were always computed as pmin + k*cell, never the float nearest to the decimal value a user types; corners of binary/XML files compared with a tolerance instead of exactly"}
 NOT_APPLICABLE = {}
 verify = {}
